@@ -360,6 +360,47 @@ def main(argv: list[str]) -> int:
     except Exception as ex:
         extra["source_fingerprint"] = {"error": repr(ex)[:200]}
 
+    # translator tie (harness/tie.py, harness/pytrans.py): Lean definitions regenerated from the CURRENT source text of
+    # the straight-line kernels + kernel-checked theorems "generated = hand-written model" over every ordered field.
+    # proved            -> the property theorems are theorems about what the source says now (for these functions);
+    # unproved + a concrete rational input on which generated and model differ -> broken correspondence (replayable);
+    # unproved / untranslatable without a differing input -> not an alarm (the sampled correspondence below is still the
+    #   official tie) but the case budget is multiplied and the evidence says so.
+    tie_res = None
+    tie_disagreements: list[dict] = []
+    if not a.replay:
+        try:
+            import tie
+            import tie_specs
+            if pid in tie_specs.BY_PROPERTY and os.environ.get("VERIF_NO_TIE") != "1":
+                tie_res = tie.run(pid, REPO, seed)
+        except Exception as ex:
+            extra["translated_tie"] = {"error": repr(ex)[:300]}
+    if tie_res is not None:
+        fns = tie_res.get("functions", {})
+        summary = {"functions": {}, "wall_s": tie_res.get("wall_s"), "proved": 0, "total": len(fns),
+                   "what": "Python->Lean translation of the current source text; theorem generated = model for all inputs "
+                           "over ordered fields (axioms audited); Rat differential and Float self-check of the translator"}
+        for name, r in fns.items():
+            st = r.get("status")
+            bad_ax = [x for x in (r.get("axioms") or []) if x not in ALLOWED_AXIOMS]
+            if st == "proved" and bad_ax:
+                st = "unproved"
+                r["reason"] = f"non-standard axioms {bad_ax}"
+            summary["functions"][name] = {k: r.get(k) for k in ("status", "reason", "axioms", "differs_at", "float_selfcheck")
+                                          if r.get(k) is not None}
+            summary["functions"][name]["status"] = st
+            if st == "proved":
+                summary["proved"] += 1
+            elif r.get("differs_at") is not None:
+                tie_disagreements.append({"op": f"tie:{name}", "input": {"tie_function": name, "differs_at": r.get("differs_at")},
+                                          "impl": r.get("gen_value", "generated definition (current source text)"),
+                                          "model": r.get("model_value", "hand-written model"), "size": 0})
+        if summary["proved"] < summary["total"]:
+            base_budget = max(base_budget, float(os.environ.get("VERIF_ESCALATE", "4" if tier == "quick" else "2")))
+            summary["stderr_tail"] = (tie_res.get("stderr_tail") or "")[-600:]
+        extra["translated_tie"] = summary
+
     def explore(budget: float) -> Ctx:
         ctx = Ctx(pid, tier, seed, lean, budget)
         mod.run(ctx)
@@ -387,6 +428,12 @@ def main(argv: list[str]) -> int:
                 extra["anchored_line_coverage"] = {"measured": False, "why": repr(ex)[:200]}
     if src_changed:
         ctx.notes.append(f"{len(src_changed)} anchored function(s) differ from the fingerprint baseline: case budget x{base_budget:g}")
+    if tie_disagreements:
+        ctx.disagreements += tie_disagreements
+        ctx.notes.append(f"translator tie: {len(tie_disagreements)} function(s) differ from the model on a concrete input")
+    if tie_res is not None and extra.get("translated_tie", {}).get("proved", 0) < extra.get("translated_tie", {}).get("total", 0):
+        ctx.notes.append("translator tie: not every generated definition was proved equal to the model "
+                         f"({extra['translated_tie']['proved']}/{extra['translated_tie']['total']}); case budget x{base_budget:g}")
 
     proofs_ok = lean.proofs_ok
     if not ctx.spec_failures and (not proofs_ok or ctx.disagreements):
